@@ -256,21 +256,23 @@ pub fn run(ctx: &mut Ctx) {
         }
     }
 
-    // ---- the same histories with HP:0000000 as the absent term (id 0 is the arena's internal placeholder slot)
-    {
-        let p2_zero: [(u32, u32); 5] = [(1, 2), (1, 0), (0, 1), (2, 0), (0, 2)];
-        let mut p3_zero: Vec<Op3> = vec![];
+    // ---- the same histories with special absent ids: HP:0000000 (the arena's internal placeholder slot), the
+    // last id of the id table, and ids beyond the table (any u32 is a legal HpoTermId)
+    for absent in [0u32, 9_999_999, 10_000_000, u32::MAX] {
+        let p2_abs: [(u32, u32); 5] = [(1, 2), (1, absent), (absent, 1), (2, absent), (absent, 2)];
+        let mut p3_abs: Vec<Op3> = vec![];
         for k in [Kind::Gene, Kind::Omim, Kind::Orpha] {
             for r in [7u32, 8] {
-                for t in [1u32, 2, 0] {
-                    p3_zero.push(Op3::Annotate(k, r, t));
+                for t in [1u32, 2, absent] {
+                    p3_abs.push(Op3::Annotate(k, r, t));
                 }
             }
-            p3_zero.push(Op3::Add(k, 7));
+            p3_abs.push(Op3::Add(k, 7));
         }
-        let a = sequences(&p2_zero, 2);
-        let b = sequences(&p3_zero, 2);
-        ctx.space("histories/absent-term-is-id-0", &format!("{} add_parent sequences (<= 2) x {} annotate/add sequences (<= 2) with terms 1, 2 present and HP:0000000 absent", a.len(), b.len()));
+        let a = sequences(&p2_abs, 2);
+        let b = sequences(&p3_abs, 2);
+        let name = if absent == 0 { "histories/absent-term-is-id-0".to_string() } else { format!("histories/absent-term-is-id-{absent}") };
+        ctx.space(&name, &format!("{} add_parent sequences (<= 2) x {} annotate/add sequences (<= 2) with terms 1, 2 present and term id {absent} absent", a.len(), b.len()));
         for p2 in &a {
             if !ctx.take() {
                 continue;
@@ -279,7 +281,7 @@ pub fn run(ctx: &mut Ctx) {
             for p3 in &b {
                 check_history(ctx, p2, p3);
             }
-            ctx.sample(|| json!({"AllTerms": p2.iter().map(|(p, c)| format!("add_parent({p},{c})")).collect::<Vec<_>>(), "absent_term": 0}));
+            ctx.sample(|| json!({"AllTerms": p2.iter().map(|(p, c)| format!("add_parent({p},{c})")).collect::<Vec<_>>(), "absent_term": absent}));
         }
     }
 
@@ -380,6 +382,70 @@ pub fn run(ctx: &mut Ctx) {
                                 },
                             }
                             ctx.sample(|| json!({"kind": kind.name(), "record_terms": terms, "absent": absent, "format_version": version}));
+                        }
+                    }
+                }
+            }
+        }
+    }
+
+    // ---- the same with the offending term in a second occurrence of a record id (the first occurrence is valid)
+    ctx.space("decoder/repeated-records-naming-absent-terms", "binary v1/v2/v3 files (terms 1, 118, 200) in which record 7 occurs twice: once listing valid terms only, once listing an absent term (300 / 9999999) at every position, in both orders of the two occurrences: from_bytes must not return an ontology in which a record lists, or a walk of the read API meets, a term that does not exist");
+    {
+        use crate::encode::{disease_record, gene_record, EncOpts, Sections};
+        let mut base = Facts::default();
+        base.version = (2024, 2, 29);
+        base.terms = vec![Facts::term(1, "All"), Facts::term(118, "Phenotypic abnormality"), Facts::term(200, "A")];
+        base.edges = vec![(118, 1), (200, 118)];
+        for kind in [Kind::Gene, Kind::Omim, Kind::Orpha] {
+            for absent in [300u32, 9_999_999] {
+                for first_valid in [vec![], vec![200u32], vec![118, 200]] {
+                    for valid in [vec![], vec![200u32], vec![118, 200]] {
+                        for pos in 0..=valid.len() {
+                            for bad_first in [false, true] {
+                                for version in [3u8, 2, 1] {
+                                    if version < 3 && kind == Kind::Orpha {
+                                        continue;
+                                    }
+                                    if !ctx.take() {
+                                        continue;
+                                    }
+                                    ctx.state();
+                                    ctx.exec();
+                                    ctx.validated();
+                                    ctx.nontrivial();
+                                    let mut f = base.clone();
+                                    f.anns.push(Facts::ann(kind, 8, "Eight", Some(118)));
+                                    let mut sec = Sections::from_facts(&f, &EncOpts::v(version));
+                                    let mut bad_terms = valid.clone();
+                                    bad_terms.insert(pos, absent);
+                                    let mk = |terms: &[u32]| if kind == Kind::Gene { gene_record(7, "Seven", terms) } else { disease_record(7, "Seven", terms) };
+                                    let (a, b) = (mk(&first_valid), mk(&bad_terms));
+                                    let slot = &mut sec.recs[kind.idx()];
+                                    if bad_first {
+                                        slot.insert(0, a);
+                                        slot.insert(0, b);
+                                    } else {
+                                        slot.push(a);
+                                        slot.push(b);
+                                    }
+                                    ctx.transitions(f.n_steps() + 2);
+                                    let bytes = sec.to_bytes();
+                                    let case = || json!({"terms": [1, 118, 200], "kind": kind.name(), "record 7, valid occurrence": first_valid, "record 7, other occurrence": bad_terms, "offending occurrence first": bad_first, "absent_term": absent, "format_version": version});
+                                    match crate::drive::from_bytes(&bytes) {
+                                        Ok(Err(_)) | Err(_) => {}
+                                        Ok(Ok(ont)) => match Obs::of(&ont) {
+                                            Err(i) => ctx.violation("Ontology::from_bytes", "returns an ontology with a dangling term id (read API panics) for a repeated record naming an absent term", json!({"case": case(), "observed": i.what})),
+                                            Ok(o) => {
+                                                if o.recs.iter().any(|rs| rs.iter().any(|r| r.terms.contains(&absent))) {
+                                                    ctx.violation("Ontology::from_bytes", "returns an ontology whose record lists a term that does not exist (repeated record)", json!({"case": case()}));
+                                                }
+                                            }
+                                        },
+                                    }
+                                    ctx.sample(|| case());
+                                }
+                            }
                         }
                     }
                 }
